@@ -47,11 +47,12 @@ Qed.
 (* ... in the composite model: task 0 polls a boxed sleep(10), hands it to task 1 and sleeps 30;
    task 1 receives it at 0 and awaits it.  With the pinned behaviour the wake-up at 10 polls
    task 0; task 1 never resumes (log [0] only, not finished, run not Ok), whereas the code as
-   it is now resumes it at exactly 10. *)
+   it is now resumes it at exactly 10.  (firstn: the task logs, run result and end time; the
+   driver snapshots that follow in the output are not shown.) *)
 Lemma C05_pinned_hand_over_lost :
   exists script,
-    run_gen false script = [2; 0; 30; 1;  1; 0; 0;  0; 30] /\
-    run_gen true script = [2; 0; 30; 1;  2; 0; 10; 1;  1; 30].
+    firstn 9 (run_gen false script) = [2; 0; 30; 1;  1; 0; 0;  0; 30] /\
+    firstn 10 (run_gen true script) = [2; 0; 30; 1;  2; 0; 10; 1;  1; 30].
 Proof.
   exists [0; 2; 7; 0; 0; 9; 0; 10; 1; 30; 4; 0; 0; 10; 0]. vm_compute. split; reflexivity.
 Qed.
